@@ -5,7 +5,7 @@ PROPERTY = 'C01'
 THEOREMS = ['Sched.dep_safe_inv', 'Sched.InvA_step', 'Sched.InvA_init', 'Sched.InvA_reach', 'Sched.step_sound', 'Sched.decide_spec', 'Sched.seen_is_snapshot']
 BUDGET = {'quick': 700, 'thorough': 6000}
 TIME_LIMIT = {'quick': 55, 'thorough': 700}
-RULE = ('single runs and resumed runs (35%: a second run after some results were lost): random DAGs (hard/soft edges), 1-6 workers, all 7 outcome kinds, random and PCT schedules' + '; the real QueueScheduling backend runs under the controlled scheduler; non-trivial = '
+RULE = ('single runs and resumed runs (35%: a second run after some results were lost): random DAGs (hard/soft edges), 1-6 workers, all outcome kinds (done, FAILED returned, exception, SystemExit, None, not a pair, bad / non-final status, update that is not a mapping - also falsy - or that replaces the own entry), random and PCT schedules; 25%: a second job with another graph over the same task names on the same backend object' + '; the real QueueScheduling backend runs under the controlled scheduler; non-trivial = '
         '>= 3 tasks with >= 2 edges on >= 2 workers, or a special feature (cycle, stale entries, same backend, lost '
         'entries, several rounds); distinct = case hash')
 CORRESPONDS = sc.CORRESPONDS
